@@ -9,7 +9,27 @@ COMMON_ASSUMPTIONS = [
     "decided on the generated cases only: no absence proof",
 ]
 
+HISTORY_RULE = ("rapid draws whole histories (1-25 steps quick, 1-60 thorough) of packets (constructed orbiter transfers over all "
+                "routes/recipients/fee lists/denoms/amount classes, other receiver spellings, mutated and garbage memos), admin "
+                "messages and environment steps (direct deposits, re-escrow, FTF pause/blacklist, CCTP burn limit), executed on a "
+                "branch of the real SimApp; the oracle runs after every packet step. ")
+
 PROPERTIES = {
+    "C01": {
+        "level": "exploration",
+        "rule": HISTORY_RULE + "Non-trivial = an ICS-20-valid packet whose receiver decodes to the orbiter account; distinct by "
+                "(route, denom, amount class, recipient, fee count, dust present, outcome, receiver spelling, raw memo).",
+        "assumptions": COMMON_ASSUMPTIONS,
+        "tests": [{"test": "TestC01History", "quick": 400, "thorough": 48000}],
+    },
+    "C02": {
+        "level": "exploration",
+        "rule": HISTORY_RULE + "Non-trivial = a successful orbiter transfer, whose whole-ledger delta (all accounts and total supply) "
+                "is compared with the reference model's expected delta; distinct by (route, denom, amount class, recipient, fee "
+                "count, dust present).",
+        "assumptions": COMMON_ASSUMPTIONS,
+        "tests": [{"test": "TestC02History", "quick": 400, "thorough": 48000}],
+    },
     "C14": {
         "level": "exploration",
         "rule": "rapid generators over (a) structure-aware mutations of valid memos in an orbiter-addressed packet, "
@@ -22,6 +42,7 @@ PROPERTIES = {
             {"test": "TestC14MutatedMemo", "quick": 6000, "thorough": 800000},
             {"test": "TestC14Attributes", "quick": 4000, "thorough": 600000},
             {"test": "TestC14RawPacket", "quick": 4000, "thorough": 600000},
+            {"test": "TestC14History", "quick": 300, "thorough": 32000},
         ],
     },
 }
